@@ -433,7 +433,7 @@ class Executor:
     def entry_state(self):
         st = State()
         # module-level names usable inside the function
-        for nm, ty in list(self.c.closure.items()) + list(self.c.params.items()):
+        for nm, ty in list(self.c.closure.items()) + list(self.c.params.items()) + list(getattr(self.c, "ghost_params", {}).items()):
             self.make_param(st, nm, ty)
         st.old_heap = dict(st.heap)
         st.entry_env = dict(st.env)
@@ -1084,6 +1084,10 @@ class Executor:
     def ev_old(self, node, st):
         v = self.entry_view(st)
         v.pc = st.pc
+        # quantifier-bound variables and scalar locals keep their current meaning inside old(...)
+        for k, val in st.env.items():
+            if k not in v.env and isinstance(val, (VInt, VBool, VFloat)):
+                v.env[k] = val
         return self.ev(node, v, spec=True)
 
     def quantifier(self, which, gen, st, spec):
@@ -1645,6 +1649,17 @@ class Executor:
             bound[names[k]] = a
         for k, a in kwargs.items():
             bound[k] = a
+        if len(bound) != len(names):
+            # fill literal defaults from the callee's real signature
+            try:
+                cf = load_module(callee.module).funcs.get(callee.qualname)
+                a = cf.args
+                pn = [x.arg for x in a.args]
+                for nm, d in zip(pn[len(pn) - len(a.defaults):], a.defaults):
+                    if nm not in bound:
+                        bound[nm] = self.ev(d, State(), True)
+            except Exception:
+                pass
         if callee.inline:
             return self.inline_call(callee, bound, st, n, spec)
         if len(bound) != len(names):
@@ -1978,6 +1993,19 @@ class Executor:
         v = self.ev(s.value, st, spec)
         for t in s.targets:
             self.assign(t, v, st, s, spec)
+        if not spec and self.c.ghost.get("after_assign"):
+            for t in s.targets:
+                b = t
+                while isinstance(b, ast.Subscript):
+                    b = b.value
+                if isinstance(b, ast.Name) and b.id in self.c.ghost["after_assign"]:
+                    for src in self.c.ghost["after_assign"][b.id]:
+                        for g in ast.parse(src).body:
+                            ast.increment_lineno(g, s.lineno - 1)
+                            outs = self.exec_stmt(g, st, spec)
+                            if len(outs) != 1:
+                                raise Unsupported("ghost statement forks", s)
+                            st = outs[0]
         return [st]
 
     def st_AnnAssign(self, s, st, spec):
@@ -2079,9 +2107,14 @@ class Executor:
                 lo, hi = rargs[0], rargs[1]
                 stp = z3.simplify(rargs[2])
                 if not z3.is_int_value(stp):
-                    raise Unsupported("non-literal range step", s)
-                step = stp.as_long()
-            if abs(step) != 1:
+                    # symbolic step: must be +1 or -1 (obligation), iteration by counter
+                    self.oblige(st, "assert", "%s.step" % self.line_tag(s), z3.Or(rargs[2] == 1, rargs[2] == -1), s,
+                                desc="range step is +1 or -1")
+                    st.assume(z3.Or(rargs[2] == 1, rargs[2] == -1))
+                    step = rargs[2]
+                else:
+                    step = stp.as_long()
+            if isinstance(step, int) and abs(step) != 1:
                 raise Unsupported("range step %s" % step, s)
             target = s.target
         else:
@@ -2106,7 +2139,7 @@ class Executor:
             lo_s, hi_s = z3.simplify(lo), z3.simplify(hi)
             if z3.is_int_value(lo_s) and z3.is_int_value(hi_s) and hidden_arr is None and \
                     abs(hi_s.as_long() - lo_s.as_long()) <= 16:
-                vals = list(range(lo_s.as_long(), hi_s.as_long(), step))
+                vals = list(range(lo_s.as_long(), hi_s.as_long(), step if isinstance(step, int) else 1))
                 return self.unroll_for(s, [VInt(v) for v in vals], st, spec)
             raise ContractMismatch("loop #%d (line %d) of %s has no invariant" % (k, s.lineno, self.c.key))
         if ls.kind != "for":
@@ -2124,14 +2157,20 @@ class Executor:
                 self.assign(target, self.wrap_elem(a, a.select([iv])), state, s, spec)
 
         # iteration counter semantics: i runs lo, lo+step, ... while (step>0 ? i<hi : i>hi)
-        if step == 1:
+        if isinstance(step, int) and step == 1:
             end = z3.If(hi > lo, hi, lo)
             in_range = lambda i: z3.And(i >= lo, i <= end)
             guard = lambda i: i < hi
-        else:
+        elif isinstance(step, int):
             end = z3.If(hi < lo, hi, lo)
             in_range = lambda i: z3.And(i <= lo, i >= end)
             guard = lambda i: i > hi
+        else:
+            # step is a term known to be +-1: the loop variable moves from lo towards hi
+            fwd = step == 1
+            end = z3.If(fwd, z3.If(hi > lo, hi, lo), z3.If(hi < lo, hi, lo))
+            in_range = lambda i: z3.If(fwd, z3.And(i >= lo, i <= end), z3.And(i <= lo, i >= end))
+            guard = lambda i: z3.If(fwd, i < hi, i > hi)
         return self.cut_loop(s, k, ls, st, bind, lo, step, in_range, guard, spec)
 
     def unroll_for(self, s, items, st, spec):
@@ -2409,6 +2448,8 @@ class SpecCtx:
         dummy.native = None
         dummy.props = ()
         dummy.options = {}
+        dummy.ghost = {}
+        dummy.ghost_params = {}
         self.ex = Executor.__new__(Executor)
         self.ex.c = dummy
         self.ex.mod = None
